@@ -3,36 +3,35 @@ import Chewing.Proofs.TrieBufSettle
 import Chewing.Proofs.SqliteDict
 import Chewing.Proofs.TrieLink
 import Chewing.Proofs.TrieLinkOrder
+import Chewing.Proofs.TrieFuzzyOrder
 /-!
 # C09 — Mutable dictionaries behave as a map under any update history
 
 Models: `Model/MapSpec.lean` (the abstract map and what a correct answer is), `Model/TrieBuf.lean`
 (`Trie` read side, `TrieBuilder`, `TrieBuf` with snapshot / pending tree / graveyard and the
 *sequential* snapshot writer), `Model/Layered.lean` (the shared de-duplication loop, `Layered`).
-The models describe the repository **after** the four `fix:` commits of this property:
+The models describe the repository **after** the five `fix:` commits of this property:
 F09 (`add_phrase`/`update_phrase` lift the tombstone), F11 (`Trie::lookup_first_n_phrases` truncates),
 F10 (8e6d504: a pending entry replaces the persisted entry of the same key in `entries()` and in
-lookups) and MaxCodePointPhrase (2c45871: a lookup scans *all* pending phrases of the syllables).
+lookups), MaxCodePointPhrase (2c45871: a lookup scans *all* pending phrases of the syllables) and
+F36 (097161a: a prefix lookup is answered from the merged view of `entries()`, every pending / tombstone
+filter keyed by the entry's own key, restricted to the keys that match the query per syllable).
 
-Result in one paragraph.  *State refinement holds for every history* (`triebuf_refines`): whatever
-sequence of add / update / remove / flush / reopen / close-and-open is applied to an in-memory or a
-file-backed `TrieBuf`, the map it denotes is the one `MapSpec` computes, and `add_phrase` is rejected
-exactly on live keys.  The *answers* of **exact lookups and of the enumeration** are those of that map
-in **every** state of every history, in-memory or file-backed, with no precondition on the operations
-(`C09_exact`, `lookup_exact`, `entries_exact`).  *Prefix* (`FuzzyPartialPrefix`) lookups are the map's
-outside one decidable class, which is a genuine defect of the code (known finding F36, refutations
-below):
-
-* `fuzzyClass` — class **FuzzyOverTombstoneOrPending** (F36): prefix lookups only scan persisted
-  leaves, add the pending entries of exactly the query and filter pending keys / tombstones keyed by
-  the query (`Trie::lookup_all_phrases` returns phrases without the key they were found under).
-
-The class is *transient*: after **any** history `reopen; flush; reopen` (writer drained, snapshot taken
-and adopted) or close-and-open leaves nothing pending, so that every answer — exact, prefix,
-enumeration — is the map's (`adoption_answers`, `close_open_answers`, §6a).  `Layered` is treated for
-arbitrary system layers and a user layer under any history applied through `Layered` itself
-(`layered_history`, `layered_history_file`).  The provided trait methods `lookup_first_phrase` /
-`lookup_all_phrases` are the head / the whole of the full result.
+Result in one paragraph.  **`theorem C09 : C09_full`** — whatever sequence of add / update / remove /
+flush / reopen / close-and-open is applied to an in-memory or a file-backed `TrieBuf` (snapshot adoption
+included), the map it denotes is the one `MapSpec` computes, `add_phrase` is rejected exactly on live
+keys, and **every answer — exact lookup, prefix (`FuzzyPartialPrefix`) lookup, enumeration — is that
+map's, in every state of every history, with no exclusion and no precondition** (`triebuf_refines`,
+`lookup_exact`, `fuzzy_exact`, `entries_exact`).  The prefix-lookup specification `IsFuzzyLookup` is
+ORDER-FREE (one entry per phrase text live under a matching key, with the value of one such key and the
+highest frequency among them); the ORDER the repaired code produces is stated separately and exactly
+(`fuzzy_order`: first appearance in "persisted matching entries in file order, then pending matching
+entries in `BTreeMap` order"; `first_n_is_prefix_triebuf`: the first n results are the first n of it).
+`Layered` is treated for arbitrary system layers and a user layer under any history applied through
+`Layered` itself, in-memory or file-backed, for both strategies and in every state
+(`layered_history_full`; the older `layered_history`, `layered_history_file` are special cases).  The
+provided trait methods `lookup_first_phrase` / `lookup_all_phrases` are the head / the whole of the full
+result.
 
 History of the statement: until fix 8e6d504 the exact lookup and the enumeration carried the exclusion
 `shadowed` (class **UpdatePersisted**, F10: a live key both persisted and pending was enumerated twice
@@ -40,7 +39,13 @@ and looked up with the larger of the two frequencies; `entries_exact_iff` and
 `shadowed_lookup_reports_larger` characterised the old behaviour exactly and are gone with it), and
 every theorem carried the precondition `OpOk` (no phrase text beginning with U+10FFFF, class
 **MaxCodePointPhrase**: the pending range ended at the exclusive bound `"\u{10FFFF}"`).  Both are
-regression examples now (`update_persisted_fixed`, `max_code_point_phrase_fixed`).
+regression examples now (`update_persisted_fixed`, `max_code_point_phrase_fixed`).  Until fix 097161a
+the prefix lookup carried the exclusion `fuzzyClass` (class **FuzzyOverTombstoneOrPending**, F36: prefix
+lookups scanned only the persisted leaves, added the pending entries of exactly the query and filtered
+pending keys / tombstones keyed by the QUERY) and the side condition `fuzzyMatch q q`; the full statement
+was refuted (`C09_full_refuted`) and `triebuf_refines_partial` excluded exactly that class.  The two
+witnesses are regression theorems now (`fuzzy_pending_repaired`, `fuzzy_tombstone_repaired`), the
+"transient class" theorems of §6a remain as what they always were — statements about snapshot adoption.
 -/
 namespace Chewing.C09
 open Chewing MapSpec TrieBuf Trie
@@ -92,11 +97,45 @@ theorem entries_exact (s : State) (hs : Inv s) : IsEntries (abs s) (entries s) :
 theorem lookup_is_candidates (s : State) (hs : Inv s) (k : Key) :
     lookupAll s k .standard = entriesIterFor s k .standard := lookupAll_std_eq_cands hs k
 
-/-- prefix lookup outside class FuzzyOverTombstoneOrPending: one entry per phrase live under a matching
-    key, with the highest frequency among them -/
-theorem fuzzy_exact (s : State) (hs : Inv s) (q : Key) (hq : fuzzyMatch q q = true)
-    (hc : fuzzyClass s q = false) :
-    IsFuzzyLookup fuzzyMatch (abs s) q (lookupAll s q .fuzzyPartialPrefix) := fuzzy_agrees hs q hq hc
+/-- prefix lookup, in **every** state and for **every** query: one entry per phrase live under a matching
+    key (same number of syllables, every stored syllable `starts_with` the query's), with the value of one
+    such key and the highest frequency among them (F36 fixed: no excluded class, no side condition) -/
+theorem fuzzy_exact (s : State) (hs : Inv s) (q : Key) :
+    IsFuzzyLookup fuzzyMatch (abs s) q (lookupAll s q .fuzzyPartialPrefix) := fuzzy_agrees hs q
+
+/-- prefix lookup, phrases: the answer lists exactly the texts live under a matching key, each once -/
+theorem fuzzy_phrases (s : State) (hs : Inv s) (q : Key) :
+    (texts (lookupAll s q .fuzzyPartialPrefix)).Nodup ∧
+      ∀ t, t ∈ texts (lookupAll s q .fuzzyPartialPrefix) ↔
+        ∃ key v, fuzzyMatch key q = true ∧ abs s (key, t) = some v := fuzzy_texts hs q
+
+/-- **the ORDER of a prefix lookup**, exactly as the repaired code produces it: the candidates are the
+    persisted entries (file order: keys of the query's length lexicographically by syllable code, inside a
+    key the leaf order) that match, have no pending entry and no tombstone of THEIR key, followed by the
+    pending entries (`BTreeMap` order: by key, then text) that match and have no tombstone; the answer
+    holds each text at the position of its first appearance among the candidates (with the maximum under
+    `Phrase`'s order of all candidates of that text, `dedup`) -/
+theorem fuzzy_order (s : State) (q : Key) :
+    lookupAll s q .fuzzyPartialPrefix =
+      dedup ((((Trie.entries s.snap).filter (fun e => !(btHas s.btree (e.1, e.2.text))) ++ btEntries s.btree).filter
+        (fun e => !(s.grave.contains (e.1, e.2.text) ) ) |>.filter (fun e => fuzzyMatch e.1 q)).map (·.2)) ∧
+    texts (lookupAll s q .fuzzyPartialPrefix) = firstOcc (texts (entriesIterFor s q .fuzzyPartialPrefix)) :=
+  ⟨rfl, texts_dedup _⟩
+
+/-- both strategies in one formula: the candidates of a lookup are the phrases of the enumerated entries
+    (`entries()`: pending over persisted, minus tombstones) whose key matches the query under the strategy's
+    predicate — `==` for the exact strategy (where the code takes the shortcut through the trie's own lookup
+    and the `BTreeMap` range), per-syllable prefix for `FuzzyPartialPrefix` (where it IS the code) -/
+theorem lookup_is_filtered_enumeration (s : State) (k : Key) (st : Strategy) :
+    lookupAll s k st = dedup (((entries s).filter (fun e => keyMatch st e.1 k)).map (·.2)) := by
+  unfold TrieBuf.lookupAll; rw [entriesIterFor_uniform]
+
+/-- a candidate of a prefix lookup, layer by layer — each filter keyed by the key the phrase is stored
+    under (the query's key was used before fix 097161a) -/
+theorem fuzzy_candidates (s : State) (q : Key) (p : Phrase) :
+    p ∈ entriesIterFor s q .fuzzyPartialPrefix ↔ ∃ key, fuzzyMatch key q = true ∧ (key, p.text) ∉ s.grave ∧
+      (((∃ l ∈ s.snap, l.1 = key ∧ p ∈ l.2) ∧ ∀ w, ((key, p.text), w) ∉ s.btree) ∨
+        ∃ v, ((key, p.text), v) ∈ s.btree ∧ p = mkPhrase p.text v) := mem_fuzzy_entriesIterFor
 
 /-- an in-memory dictionary (no persisted layer) answers exact lookups and enumerations as the map,
     in every state of every history (special case of `C09_exact`, kept for `layered_history`) -/
@@ -303,6 +342,83 @@ theorem layered_history (sys : List Dict) (ops : List Op) (k : Key) :
     rw [habs, ← hu] at this; exact this
   exact layered_over_map sys _ m k hlk
 
+/-- `Layered` on a **prefix** lookup, over system layers `sys` (any dictionaries) and a user layer `u`
+    whose prefix lookup of `q` is a correct answer for the map `m`: each phrase once; a phrase is returned
+    iff a system layer returns it or it is live in `m` under a key matching `q`; a live user phrase is
+    reported with at least the user's frequency (the highest across layers, by `layered_union`) -/
+theorem layered_over_map_fuzzy (sys : List Dict) (u : State) (m : Map) (q : Key)
+    (hlk : IsFuzzyLookup fuzzyMatch m q (lookupAll u q .fuzzyPartialPrefix)) :
+    let r := Layered.lookupAll (sys ++ [toDict u]) q .fuzzyPartialPrefix
+    (texts r).Nodup ∧
+    (∀ t, t ∈ texts r ↔ (∃ d ∈ sys, t ∈ texts (d.lookup q .fuzzyPartialPrefix)) ∨
+      ∃ key v, fuzzyMatch key q = true ∧ m (key, t) = some v) ∧
+    (∀ key t v, fuzzyMatch key q = true → m (key, t) = some v → ∃ p ∈ r, p.text = t ∧ v.1 ≤ p.freq) := by
+  intro r
+  obtain ⟨h1, h2, h3, _⟩ := layered_union (sys ++ [toDict u]) q .fuzzyPartialPrefix
+  have huser : ∀ t, t ∈ texts (lookupAll u q .fuzzyPartialPrefix) ↔
+      ∃ key v, fuzzyMatch key q = true ∧ m (key, t) = some v := by
+    intro t
+    constructor
+    · intro ht
+      obtain ⟨p, hp, rfl⟩ := mem_texts.mp ht
+      obtain ⟨key, hm, hv⟩ := hlk.2.1 p hp
+      exact ⟨key, _, hm, hv⟩
+    · rintro ⟨key, v, hm, hv⟩
+      obtain ⟨p, hp, e, _⟩ := hlk.2.2 key t v hm hv
+      exact mem_texts.mpr ⟨p, hp, e⟩
+  have hdm : toDict u ∈ sys ++ [toDict u] := List.mem_append.mpr (Or.inr (by simp))
+  refine ⟨h1, ?_, ?_⟩
+  · intro t
+    rw [h2 t]
+    constructor
+    · rintro ⟨d, hd, ht⟩
+      rcases List.mem_append.mp hd with hd | hd
+      · exact Or.inl ⟨d, hd, ht⟩
+      · simp only [List.mem_cons, List.not_mem_nil, or_false] at hd
+        rw [hd] at ht
+        exact Or.inr ((huser t).mp ht)
+    · rintro (⟨d, hd, ht⟩ | hv)
+      · exact ⟨d, List.mem_append.mpr (Or.inl hd), ht⟩
+      · exact ⟨toDict u, hdm, (huser t).mpr hv⟩
+  · intro key t v hm hv
+    obtain ⟨q', hq', eq, fq⟩ := hlk.2.2 key t v hm hv
+    have ht : t ∈ texts r := (h2 t).mpr ⟨_, hdm, mem_texts.mpr ⟨q', hq', eq⟩⟩
+    obtain ⟨p, hp, ep⟩ := mem_texts.mp ht
+    refine ⟨p, hp, ep, ?_⟩
+    have := (h3 p hp).2 _ hdm q' hq' (by rw [eq, ep])
+    exact Nat.le_trans fq this
+
+/-- **Layered under any update history, in every state, both strategies**: the user layer — in-memory or
+    file-backed, snapshot adoption included — went through the history `ops` of
+    `Layered::{add,update,remove}_phrase`, `flush`, `reopen`, close-and-open (no settling suffix, no
+    excluded class); the user's map is `Map.empty.run (forwarded ops)`.  Exact lookup of `k`: system layers
+    ∪ live phrases of `k`; prefix lookup of `q`: system layers ∪ phrases live under a key matching `q`. -/
+theorem layered_history_full (init : State) (hi : init = initMem ∨ init = initFile) (sys : List Dict) (ops : List Op) :
+    let m := Map.empty.run (ops.filter Layered.forwarded)
+    let u := Layered.runUser init ops
+    (∀ k, let r := Layered.lookupAll (sys ++ [toDict u]) k .standard
+      (texts r).Nodup ∧
+      (∀ t, t ∈ texts r ↔ (∃ d ∈ sys, t ∈ texts (d.lookup k .standard)) ∨ ∃ v, m (k, t) = some v) ∧
+      (∀ t v, m (k, t) = some v → ∃ p ∈ r, p.text = t ∧ v.1 ≤ p.freq)) ∧
+    (∀ q, let r := Layered.lookupAll (sys ++ [toDict u]) q .fuzzyPartialPrefix
+      (texts r).Nodup ∧
+      (∀ t, t ∈ texts r ↔ (∃ d ∈ sys, t ∈ texts (d.lookup q .fuzzyPartialPrefix)) ∨
+        ∃ key v, fuzzyMatch key q = true ∧ m (key, t) = some v) ∧
+      (∀ key t v, fuzzyMatch key q = true → m (key, t) = some v → ∃ p ∈ r, p.text = t ∧ v.1 ≤ p.freq)) := by
+  intro m u
+  have hu : u = run init (ops.filter Layered.forwarded) := layered_runUser _ _
+  have h := triebuf_refines init hi (ops.filter Layered.forwarded)
+  rw [← hu] at h
+  refine ⟨fun k => ?_, fun q => ?_⟩
+  · have hlk : IsLookup m k (lookupAll u k .standard) := by
+      have := lookup_agrees h.1 k
+      rw [h.2] at this; exact this
+    exact layered_over_map sys u m k hlk
+  · have hlk : IsFuzzyLookup fuzzyMatch m q (lookupAll u q .fuzzyPartialPrefix) := by
+      have := fuzzy_agrees h.1 q
+      rw [h.2] at this; exact this
+    exact layered_over_map_fuzzy sys u m q hlk
+
 /-! ## 5. The first n results are the first n of the full result -/
 
 theorem first_n_is_prefix_triebuf (s : State) (k : Key) (n : Nat) (st : Strategy) :
@@ -352,22 +468,33 @@ theorem first_phrase_sqlite (s : SqliteDict.State) (k : Key) (st : Strategy) :
     firstPhraseOf (fun n => SqliteDict.lookupFirstN s k n st) = (SqliteDict.lookupAll s k).head? :=
   first_phrase_is_head _ _ (fun _ => rfl)
 
-/-! ## 6. The full statement, its refutation on the current tree, and the partial theorem -/
+/-! ## 6. The full statement — a theorem since fix 097161a (F36) -/
 
 /-- the answers of a state are those of the map it denotes -/
 structure Answers (s : State) : Prop where
   lookup : ∀ k, IsLookup (abs s) k (lookupAll s k .standard)
   entries : IsEntries (abs s) (entries s)
-  fuzzy : ∀ q, fuzzyMatch q q = true → IsFuzzyLookup fuzzyMatch (abs s) q (lookupAll s q .fuzzyPartialPrefix)
+  fuzzy : ∀ q, IsFuzzyLookup fuzzyMatch (abs s) q (lookupAll s q .fuzzyPartialPrefix)
 
 /-- full-strength C09 for `TrieBuf`: along every history the dictionary denotes the specified map
-    and answers as that map -/
+    and answers as that map (exact lookup, enumeration, prefix lookup) -/
 def C09_full : Prop :=
   ∀ init, (init = initMem ∨ init = initFile) → ∀ ops : List Op,
     abs (run init ops) = Map.empty.run ops ∧ Answers (run init ops)
 
-/-- C09 for the exact lookup and the enumeration — the two answers the property's statement names —
-    at full strength: every history, every state, in-memory or file-backed, no precondition -/
+/-- every state satisfying the invariant answers as its map -/
+theorem inv_answers (s : State) (hs : Inv s) : Answers s :=
+  ⟨fun k => lookup_agrees hs k, entries_agrees hs, fun q => fuzzy_agrees hs q⟩
+
+/-- **C09 for `TrieBuf`, full strength**: every history, every state, in-memory or file-backed (flush,
+    reopen with snapshot adoption, close-and-open included), all three kinds of answers, no excluded
+    class, no precondition.  (Refuted until fix 097161a: `C09_full_refuted` with the witnesses below.) -/
+theorem C09 : C09_full := by
+  intro init hi ops
+  have h := triebuf_refines init hi ops
+  exact ⟨h.2, inv_answers _ h.1⟩
+
+/-- C09 for the exact lookup and the enumeration alone (special case of `C09`, kept: C10 / C08 link to it) -/
 def C09_exact_full : Prop :=
   ∀ init, (init = initMem ∨ init = initFile) → ∀ ops : List Op,
     let s := run init ops
@@ -385,10 +512,10 @@ def tCe : Text := [28204]      -- 測
 /-- F10 witness (fixed): add, snapshot, then update the persisted entry with a lower frequency -/
 def witnessF10 : List Op := [.add kCe4 tCe 100 (some 2), .flush, .reopen, .update kCe4 tCe 50 7]
 
-/-- F36 witness (pending half): a pending entry is never matched by prefix -/
+/-- F36 witness (pending half, fixed): a pending entry was never matched by prefix -/
 def witnessF36 : List Op := [.add kCe4 tCe 1 (some 2)]
 
-/-- F36 witness (tombstone half): the prefix lookup ignores the tombstone of a persisted entry -/
+/-- F36 witness (tombstone half, fixed): the prefix lookup ignored the tombstone of a persisted entry -/
 def witnessF36b : List Op := [.add kCe4 tCe 100 (some 2), .flush, .reopen, .remove kCe4 tCe]
 
 /-- F10 regression (fixed by 8e6d504): the lookup reports the new value — before the fix it reported
@@ -398,58 +525,62 @@ theorem update_persisted_fixed :
     entries (run initFile witnessF10) = [(kCe4, { text := tCe, freq := 50, lastUsed := some 7 })] ∧
     abs (run initFile witnessF10) (kCe4, tCe) = some (50, 7) := by decide
 
-/-- F36: the pending phrase 測 under ㄘㄜˋ is live and matches the prefix ㄘ, yet the prefix lookup is empty -/
-theorem fuzzy_pending_refuted :
-    ¬ IsFuzzyLookup fuzzyMatch (abs (run initMem witnessF36)) kC (lookupAll (run initMem witnessF36) kC .fuzzyPartialPrefix) := by
-  intro h
-  have h1 : lookupAll (run initMem witnessF36) kC .fuzzyPartialPrefix = [] := by decide
-  have h2 : abs (run initMem witnessF36) (kCe4, tCe) = some (1, 2) := by decide
-  have hm : fuzzyMatch kCe4 kC = true := by decide
-  obtain ⟨p, hp, _⟩ := h.2.2 kCe4 tCe (1, 2) hm h2
-  rw [h1] at hp
-  exact absurd hp (by simp)
+/-- F36 regression, pending half (fixed by 097161a; was `fuzzy_pending_refuted`): the pending phrase 測
+    under ㄘㄜˋ is live, matches the prefix ㄘ, and the prefix lookup returns it — before the fix the answer
+    was empty until a snapshot had been adopted — in-memory and file-backed alike -/
+theorem fuzzy_pending_repaired :
+    lookupAll (run initMem witnessF36) kC .fuzzyPartialPrefix = [{ text := tCe, freq := 1, lastUsed := some 2 }] ∧
+    lookupAll (run initFile witnessF36) kC .fuzzyPartialPrefix = [{ text := tCe, freq := 1, lastUsed := some 2 }] ∧
+    abs (run initMem witnessF36) (kCe4, tCe) = some (1, 2) ∧ fuzzyMatch kCe4 kC = true ∧
+    IsFuzzyLookup fuzzyMatch (abs (run initMem witnessF36)) kC (lookupAll (run initMem witnessF36) kC .fuzzyPartialPrefix) :=
+  ⟨by decide, by decide, by decide, by decide, (C09 initMem (Or.inl rfl) witnessF36).2.fuzzy kC⟩
 
-/-- F36: after removing the persisted 測, the prefix lookup of ㄘ still returns it (the exact lookup does not) -/
-theorem fuzzy_tombstone_witness :
-    lookupAll (run initFile witnessF36b) kC .fuzzyPartialPrefix = [{ text := tCe, freq := 100, lastUsed := some 2 }] ∧
+/-- F36 regression, tombstone half (fixed by 097161a; was `fuzzy_tombstone_witness`): after removing the
+    persisted 測 the prefix lookup of ㄘ no longer returns it (before: `[測/100/2]`), in agreement with the
+    exact lookup and the map; the state still holds the persisted leaf and the tombstone -/
+theorem fuzzy_tombstone_repaired :
+    lookupAll (run initFile witnessF36b) kC .fuzzyPartialPrefix = [] ∧
     lookupAll (run initFile witnessF36b) kCe4 .standard = [] ∧
-    abs (run initFile witnessF36b) (kCe4, tCe) = none ∧ fuzzyClass (run initFile witnessF36b) kC = true := by
+    abs (run initFile witnessF36b) (kCe4, tCe) = none ∧
+    (run initFile witnessF36b).snap ≠ [] ∧ (run initFile witnessF36b).grave = [(kCe4, tCe)] := by
   decide
 
-theorem C09_full_refuted : ¬ C09_full := by
-  intro h
-  have := (h initMem (Or.inl rfl) witnessF36).2.fuzzy kC (by decide)
-  exact fuzzy_pending_refuted this
+/-- F36 regression, shadowing: a persisted entry updated with a LOWER frequency is reported by the prefix
+    lookup with the new value (the pending entry replaces the persisted one of the same key; a prefix
+    lookup that merged without keys would report `max` = 100) -/
+theorem fuzzy_shadow_repaired :
+    lookupAll (run initFile witnessF10) kC .fuzzyPartialPrefix = [{ text := tCe, freq := 50, lastUsed := some 7 }] := by
+  decide
 
-/-- **C09 for `TrieBuf`, partial**: along every history the denoted map is the specified one, every
-    exact lookup and the enumeration are the map's (no exclusion), and every prefix lookup is the map's
-    outside *exactly* the class `FuzzyOverTombstoneOrPending` (`fuzzyClass`) -/
-theorem triebuf_refines_partial (init : State) (hi : init = initMem ∨ init = initFile) (ops : List Op) :
+/-- **C09 for `TrieBuf`** spelled out (the former `triebuf_refines_partial`, whose prefix clause excluded
+    the class `FuzzyOverTombstoneOrPending` and required `fuzzyMatch q q`): along every history the denoted
+    map is the specified one and every exact lookup, the enumeration and every prefix lookup are the map's -/
+theorem triebuf_refines_full (init : State) (hi : init = initMem ∨ init = initFile) (ops : List Op) :
     let s := run init ops
     abs s = Map.empty.run ops ∧
     (∀ k, IsLookup (abs s) k (lookupAll s k .standard)) ∧
     IsEntries (abs s) (entries s) ∧
-    (∀ q, fuzzyMatch q q = true → fuzzyClass s q = false →
-      IsFuzzyLookup fuzzyMatch (abs s) q (lookupAll s q .fuzzyPartialPrefix)) := by
+    (∀ q, IsFuzzyLookup fuzzyMatch (abs s) q (lookupAll s q .fuzzyPartialPrefix)) := by
   intro s
   have h := triebuf_refines init hi ops
-  exact ⟨h.2, fun k => lookup_agrees h.1 k, entries_agrees h.1, fun q hq hc => fuzzy_agrees h.1 q hq hc⟩
+  exact ⟨h.2, fun k => lookup_agrees h.1 k, entries_agrees h.1, fun q => fuzzy_agrees h.1 q⟩
 
-/-! ### 6a. The snapshot-adoption path: after `flush` + `reopen` every answer is exact
+/-! ### 6a. The snapshot-adoption path
 
-The known-finding class only exists *between* a modification of a dictionary and the adoption of the
-next snapshot.  `Settled` = nothing pending, no tombstone. -/
+Until fix 097161a the prefix lookup was only guaranteed in a `Settled` state (nothing pending, no
+tombstone) and these theorems said that the known-finding class is transient.  They remain as statements
+about adoption: `reopen; flush; reopen` / close-and-open always end settled, with the map unchanged. -/
 
-/-- a settled state answers every query — exact lookup, enumeration, prefix lookup — as its map -/
-theorem settled_answers (s : State) (hs : Inv s) (h : Settled s) : Answers s :=
-  ⟨fun k => lookup_agrees hs k, entries_agrees hs, fun q hq => fuzzy_agrees hs q hq (settled_not_fuzzyClass h q)⟩
+/-- a settled state answers every query — exact lookup, enumeration, prefix lookup — as its map (now a
+    special case of `inv_answers`) -/
+theorem settled_answers (s : State) (hs : Inv s) (_h : Settled s) : Answers s := inv_answers s hs
 
 /-- **flush and reopen**: after *any* history on a file-backed dictionary, `reopen; flush; reopen`
-    (let a writer in flight finish, take a snapshot, adopt it) leaves the specified map unchanged and
-    from then on all answers are the map's, with no exclusion -/
+    (let a writer in flight finish, take a snapshot, adopt it) leaves the specified map unchanged, nothing
+    is pending any more and all answers are the map's -/
 theorem adoption_answers (ops : List Op) :
     let s := run initFile (ops ++ settleOps)
-    abs s = Map.empty.run ops ∧ Answers s := by
+    abs s = Map.empty.run ops ∧ Answers s ∧ Settled s := by
   intro s
   have h := triebuf_refines initFile (Or.inr rfl) (ops ++ settleOps)
   have hq : Quiet (run initFile ops) := quiet_run quiet_initFile ops
@@ -457,24 +588,25 @@ theorem adoption_answers (ops : List Op) :
   have hset : Settled s := by
     show Settled (run initFile (ops ++ settleOps))
     rw [TrieBuf.run_append]; exact settled_settle hq hf
-  refine ⟨?_, settled_answers s h.1 hset⟩
+  refine ⟨?_, inv_answers s h.1, hset⟩
   rw [h.2, Map.run_append, Map.run_idle _ settleOps (by decide)]
 
 /-- **close and open again** (`Drop`: sync, flush, join; then `TrieBuf::open`): same conclusion -/
 theorem close_open_answers (ops : List Op) :
     let s := run initFile (ops ++ [.closeOpen])
-    abs s = Map.empty.run ops ∧ Answers s := by
+    abs s = Map.empty.run ops ∧ Answers s ∧ Settled s := by
   intro s
   have h := triebuf_refines initFile (Or.inr rfl) (ops ++ [.closeOpen])
   have hf : (run initFile ops).fileBacked = true := by rw [fileBacked_run]; rfl
   have hset : Settled s := by
     show Settled (run initFile (ops ++ [.closeOpen]))
     rw [TrieBuf.run_append]; exact settled_closeOpen hf
-  refine ⟨?_, settled_answers s h.1 hset⟩
+  refine ⟨?_, inv_answers s h.1, hset⟩
   rw [h.2, Map.run_append, Map.run_idle _ [.closeOpen] (by decide)]
 
 /-- **Layered with a file-backed user layer**, after any history followed by `reopen; flush; reopen`
-    through `Layered` (all three are forwarded): union with the user's map, no exclusion -/
+    through `Layered` (all three are forwarded): union with the user's map (special case of
+    `layered_history_full`, which needs no settling suffix) -/
 theorem layered_history_file (sys : List Dict) (ops : List Op) (k : Key) :
     let m := Map.empty.run (ops.filter Layered.forwarded)
     let r := Layered.lookupAll (sys ++ [toDict (Layered.runUser initFile (ops ++ settleOps))]) k .standard
@@ -485,25 +617,27 @@ theorem layered_history_file (sys : List Dict) (ops : List Op) (k : Key) :
   have hu : Layered.runUser initFile (ops ++ settleOps) = run initFile (ops.filter Layered.forwarded ++ settleOps) := by
     rw [layered_runUser, List.filter_append]
     rfl
-  obtain ⟨habs, ha⟩ := adoption_answers (ops.filter Layered.forwarded)
+  obtain ⟨habs, ha, _⟩ := adoption_answers (ops.filter Layered.forwarded)
   have hlk : IsLookup m k (lookupAll (Layered.runUser initFile (ops ++ settleOps)) k .standard) := by
     have := ha.lookup k
     rw [habs, ← hu] at this; exact this
   exact layered_over_map sys _ m k hlk
 
-/-- F36 on an in-memory dictionary, exactly: with no persisted layer the prefix lookup degenerates to
-    the exact lookup of the query (pending entries are only ever matched by their exact key) -/
-theorem mem_fuzzy_is_exact (s : State) (h : MemInv s) (q : Key) :
-    lookupAll s q .fuzzyPartialPrefix = lookupAll s q .standard := by
-  unfold TrieBuf.lookupAll entriesIterFor
+/-- an in-memory dictionary has no persisted layer: the candidates of a prefix lookup are the pending
+    entries without a tombstone whose key matches, in `BTreeMap` order (before fix 097161a the prefix
+    lookup of an in-memory dictionary degenerated to the exact lookup of the query, `mem_fuzzy_is_exact`) -/
+theorem mem_fuzzy_candidates (s : State) (h : MemInv s) (q : Key) :
+    entriesIterFor s q .fuzzyPartialPrefix =
+      (((btEntries s.btree).filter (fun e => !(s.grave.contains (e.1, e.2.text)))).filter
+        (fun e => fuzzyMatch e.1 q)).map (·.2) := by
+  show ((TrieBuf.entries s).filter _).map _ = _
+  unfold TrieBuf.entries
   rw [h.2.1]
   rfl
 
-/-- the class is *transient*: whatever state a file-backed dictionary is in, it is left by
-    `reopen; flush; reopen` -/
-theorem classes_are_transient (s : State) (hq : Quiet s) (hf : s.fileBacked = true) :
-    ∀ q, fuzzyClass (run s settleOps) q = false :=
-  fun q => settled_not_fuzzyClass (settled_settle hq hf) q
+/-- whatever state a file-backed dictionary is in, `reopen; flush; reopen` leaves nothing pending -/
+theorem settle_settles (s : State) (hq : Quiet s) (hf : s.fileBacked = true) : Settled (run s settleOps) :=
+  settled_settle hq hf
 
 /-- MaxCodePointPhrase regression (fixed by 2c45871): a pending phrase that begins with U+10FFFF is looked
     up like any other — before the fix it was outside the range `entries_iter_for` scanned (exclusive
@@ -653,6 +787,19 @@ theorem file_entries_order (info : TrieCodec.Info) (es : List Entry) (hv : C11.V
         (TrieCodec.sortLeaf ((TrieCodec.refFind es k).getD [])).map fun p => (k, p) :=
   TrieLink.build_entries_exact info es hv bytes hw
 
+/-- **the persisted candidates of a prefix lookup come in file order** although the repaired code reads them
+    from the real, depth-first `Trie::entries()`: for the bytes written from valid entries, the real
+    enumeration (C11's byte-level model) restricted to the keys matching `q` is — as a list — the model's
+    file-order enumeration restricted to them, and its phrases are what `Trie::lookup_all_phrases(q,
+    FuzzyPartialPrefix)` returns (`Proofs/TrieFuzzyOrder.lean`: matching keys have the query's length, a
+    chain of proper prefixes holds at most one key of a length, so reversing the chains moves none of them) -/
+theorem fuzzy_order_is_file_order (info : TrieCodec.Info) (es : List Entry) (hv : C11.ValidInput info es) (bytes : Der.Bytes)
+    (hw : (TrieCodec.Builder.ofEntries info es).write = some bytes) (q : Key) :
+    ∃ tr real, TrieCodec.openTrie bytes = some tr ∧ TrieCodec.entries tr = .ok real ∧
+      real.filter (fun e => fuzzyMatch e.1 q) = (Trie.entries (Trie.build es)).filter (fun e => fuzzyMatch e.1 q) ∧
+      (real.filter (fun e => fuzzyMatch e.1 q)).map (·.2) = Trie.lookupAll (Trie.build es) q .fuzzyPartialPrefix :=
+  TrieLink.real_entries_fuzzy info es hv bytes hw q
+
 /-! ## 8. Non-vacuity: the hypotheses are satisfiable and the classes are inhabited -/
 
 /-- F09 regression (fixed): remove then re-add / update is visible again, also across a snapshot -/
@@ -666,14 +813,20 @@ example : lookupAll (run initFile [.add kCe4 tCe 1 (some 2), .flush, .reopen, .r
 example : (run initFile witnessF10).btree ≠ [] ∧ (run initFile witnessF10).snap ≠ [] := by decide
 example : lookupAll (run initFile (witnessF10 ++ [.flush, .reopen])) kCe4 .standard
     = [{ text := tCe, freq := 50, lastUsed := some 7 }] := by decide
-/-- the F36 witness is in class FuzzyOverTombstoneOrPending; once persisted it is answered -/
-example : fuzzyClass (run initMem witnessF36) kC = true := by decide
-example : fuzzyClass (run initFile (witnessF36 ++ [.flush, .reopen])) kC = false ∧
-    lookupAll (run initFile (witnessF36 ++ [.flush, .reopen])) kC .fuzzyPartialPrefix
+/-- the F36 witnesses: answered the same before and after the snapshot is adopted -/
+example : lookupAll (run initFile (witnessF36 ++ [.flush, .reopen])) kC .fuzzyPartialPrefix
       = [{ text := tCe, freq := 1, lastUsed := some 2 }] := by decide
 /-- adoption: the F10 and F36 witnesses followed by `reopen; flush; reopen` are settled and answered exactly -/
 example : Settled (run initFile (witnessF10 ++ settleOps)) ∧ Settled (run initFile (witnessF36b ++ settleOps)) := by decide
 example : lookupAll (run initFile (witnessF36b ++ settleOps)) kC .fuzzyPartialPrefix = [] := by decide
+/-- a prefix lookup across two matching keys, one persisted and one pending, same text: one entry, the
+    higher frequency, at the position of the persisted one; ㄙ-keys do not match ㄘ -/
+example : lookupAll (run initFile [.add kCe4 tCe 3 (some 1), .add [10264] [20874] 9 (some 1), .flush, .reopen,
+      .add [10264] tCe 7 (some 4), .add [15368] tCe 99 (some 9)]) kC .fuzzyPartialPrefix
+    = [{ text := [20874], freq := 9, lastUsed := some 1 }, { text := tCe, freq := 7, lastUsed := some 4 }] := by decide
+/-- the matching rule: same number of syllables, every syllable a prefix -/
+example : fuzzyMatch [10268, 8708] kC = false ∧ fuzzyMatch [10268, 8708] [10240, 8704] = true ∧
+    fuzzyMatch [10268, 8708] [10240, 10240] = false := by decide
 example : (run initFile witnessF10).btree ≠ [] := by decide
 /-- provided trait methods on the F11 leaf -/
 example : firstPhraseOf (fun n => Trie.lookupFirstN (Trie.build [([1], ⟨[65], 1, none⟩), ([1], ⟨[66], 1, none⟩)]) [1] n .standard)
